@@ -223,7 +223,7 @@ theorem C01_loaded_value_conforms (env : Env) (tbl : List Entry) (htbl : TableCo
 /-- the hypotheses are satisfiable: a table with a class and a subclass -/
 example (ext : Ext) :
     EnvWF ⟨[⟨"A", [], [], .plain, false, [], [], none, none, none, fun _ => false⟩], ext⟩ := by
-  refine ⟨by simp [Env.find], ?_, ?_⟩
+  refine ⟨by simp [Env.find], ?_, ?_, ?_⟩
   · intro c d dd hd hf
     induction hd with
     | refl c => exact Or.inl rfl
@@ -234,5 +234,10 @@ example (ext : Ext) :
     split at he
     · simp only [Option.some.injEq] at he; subst he; simp at hc
     · cases he
+  · intro c d hf
+    simp only [Env.find, List.find?_cons, List.find?_nil] at hf
+    split at hf
+    · simp only [Option.some.injEq] at hf; subst hf; simp
+    · cases hf
 
 end YatimlModel.C01
